@@ -347,6 +347,14 @@ def pred_ttm(X, rank, factors, rel=None, ub_ok=True):
         err = fro(num(X) - full)
         return None if err <= REL * fro(X) else f"tensor_train_matrix: single factor is not the matrix (error {err:.3e})"
     merged = [np.asarray(f).reshape(f.shape[0], f.shape[1] * f.shape[2], f.shape[3]) for f in factors]
+    # transcription of C09_tensor_train_matrix_realised_rank: the bonds are the closed-form TT-SVD bonds on the merged sizes in_k * out_k
+    mshape = [int(X.shape[k]) * int(X.shape[d + k]) for k in range(d)]
+    got_b = [1] + [int(f.shape[3]) for f in factors]
+    if got_b[-1] == 1 and all(int(factors[k].shape[3]) == int(factors[k + 1].shape[0]) for k in range(d - 1)):
+        exp_b = strict_realised_formula(mshape, norm_rank_tt(d, rank))
+        if got_b != exp_b:
+            return (f"tensor_train_matrix: returned bonds {got_b} are not min(previous bond * in*out size, remaining size, request) = {exp_b} "
+                    f"for merged sizes {mshape}, request {norm_rank_tt(d, rank)}")
     # the error of the TT-matrix equals the error of the TT of the interleaved tensor (a permutation of entries)
     msg = pred_tt(interleave(np.asarray(X)), rank, merged, "tensor_train_matrix", rel=rel, ub_ok=ub_ok)
     if msg:
@@ -661,6 +669,42 @@ def rand_exact(kind, X, rank, extra, v):
     return all(ne + N_OVERSAMPLES >= min(r, c) for (r, c, ne) in mats)
 
 
+RAND_IDENTITY = {}
+
+
+def rand_is_transposed(d1, d2, ne):
+    """the branch condition of randomized_svd (Model/SvdDecompRand.v rand_transposed)"""
+    mx, mn_ = max(d1, d2), min(d1, d2)
+    ne_ = min(int(ne), mx)
+    n_dims = min(ne_ + N_OVERSAMPLES, mx)
+    mn = min(mn_, n_dims)
+    return (d2 < d1 and mn < ne_) or (d1 < d2 and ne_ < mn)
+
+
+def pred_rand_identity(X, factors, rand_calls, captured, full=None, what="tensor_train"):
+    """transcription of C09_tensor_train_randomized_error_identity: squared error of tensor_train(svd='randomized_svd') = sum over the
+    randomized_svd calls of the run of |M_k - U_k diag(S_k) V_k|_F^2 (M_k the taped query, (U_k, S_k, V_k) the taped answer); judged only
+    when every range finder spans the whole space or every call takes the direct branch (the transposed branch needs the captured range)"""
+    n = len(factors)
+    if len(rand_calls) != n - 1:
+        return None
+    if not captured and any(ne_ is None or rand_is_transposed(M_.shape[0], M_.shape[1], ne_) for (M_, ne_, U_, S_, V_, first_) in rand_calls):
+        return None      # a transposed-branch call whose range finder need not span the row space: the theorem's premise is not known to hold
+    Xf = num(X)
+    err2 = fro(Xf - (full or tt_full)(factors)) ** 2
+    disc = 0.0
+    for (M_, ne_, U_, S_, V_, first_) in rand_calls:
+        disc += fro(num(M_) - (num(U_) * num(S_)) @ num(V_)) ** 2
+    nx2 = fro(Xf) ** 2
+    RAND_IDENTITY[what + "_checked"] = RAND_IDENTITY.get(what + "_checked", 0) + 1
+    if disc > 1e-18 * nx2:
+        RAND_IDENTITY[what + "_truncating"] = RAND_IDENTITY.get(what + "_truncating", 0) + 1
+    if abs(err2 - disc) > 1e-9 * nx2 + 1e-7 * max(err2, disc):
+        return (f"{what}: squared error {err2:.9e} differs from the sum over the randomized_svd calls of |M_k - U_k S_k V_k|^2 = {disc:.9e} "
+                f"(error identity for already truncated answers)")
+    return None
+
+
 def predicate_method(kind, X, rank, extra, v, info, method):
     """the property's predicates for a run with svd=symeig_svd / randomized_svd (structure, finiteness, ranks respected, exact at
     sufficient rank, lower bound; upper bound when the method is an SVD up to its accuracy); no tape-based identities (these
@@ -675,12 +719,17 @@ def predicate_method(kind, X, rank, extra, v, info, method):
         ub_ok = method != "randomized_svd" or rand_exact(kind, X, rank, extra, v)
         if kind == "tt":
             msg = pred_tt(X, rank, v, rel=rel, ub_ok=ub_ok)
+            if msg is None and method == "randomized_svd" and not np.iscomplexobj(X):
+                msg = pred_rand_identity(X, v, list(LAST_RAND[0]), ub_ok)
         elif kind == "ttm":
             msg = pred_ttm(X, rank, v, rel=rel, ub_ok=ub_ok)
         elif kind == "tucker":
             msg = pred_tucker(X, rank, v[0], v[1], rel=rel, ub_ok=ub_ok)
         else:
             msg = pred_tr(X, rank, extra.get("mode", 0), v, info.get("sufficient", False), rel=rel, ub_ok=ub_ok)
+            if msg is None and method == "randomized_svd" and not np.iscomplexobj(X):
+                # transcription of C09_tensor_ring_randomized_error_identity
+                msg = pred_rand_identity(X, v, list(LAST_RAND[0]), ub_ok, full=tr_full, what="tensor_ring")
         return None if msg is None else msg.replace(":", f" (svd={method}):", 1)
     except Exception as e:
         return f"{kind} (svd={method}): output cannot be reconstructed: {type(e).__name__}: {e}"
@@ -920,6 +969,13 @@ def gen_ttm3_cases(tier, rng, nrng, small):
     """tensor_train_matrix with THREE mode pairs (order 6; the interleaving permutation (0,3,1,4,2,5) differs from every order-4 one) and
     non-square pairs; small=True: <= 40 entries with dyadic values for the correspondence, else mode sizes 1-3 for the predicates"""
     N = (8 if tier == "quick" else 48) if small else (14 if tier == "quick" else 120)
+    if small:
+        # a SINGLE mode pair (the matrix is returned as one (1, in, out, 1) core before any rank validation), non-square / non-symmetric
+        for j, shape in enumerate([(2, 3), (3, 2), (2, 2)] if tier == "quick" else [(2, 3), (3, 2), (2, 2), (3, 3), (1, 3), (3, 1), (2, 3), (3, 2)]):
+            X = np.round(nrng.standard_normal(shape) * 16) / 16 if j % 2 == 0 else nrng.randint(-4, 5, size=shape)
+            if not np.asarray(X).any():
+                X.flat[0] = 1
+            yield "ttm", X, rng.choice([[1, 1], 2, [1, 3, 1]]), {}, {"cls": "generic" if j % 2 == 0 else "integer", "valid": True, "ttm1": True}
     for i in range(N):
         while True:
             if small:
@@ -1546,6 +1602,8 @@ def ast_tie(chk):
     add("tt_loop_rank_clipping", lambda: loop_goal("tensorly/decomposition/_tt.py", "tensor_train"))
     add("tr_loop_rank_clipping", lambda: loop_goal("tensorly/decomposition/_tr_svd.py", "tensor_ring"))
 
+    GENERIC = {}
+
     def tr_goals():
         fn = fn_of("tensorly/decomposition/_tr_svd.py", "tensor_ring")
         env = {"rank": "rank", "mode": "mode", "n_dim": "n_dim", "__list_add__": True}
@@ -1556,7 +1614,13 @@ def ast_tie(chk):
         cond = _find_stmt(fn, lambda n: isinstance(n, _a.If) and isinstance(n.test, _a.Compare) and "rank[0] * rank[1]" in _a.unparse(n.test.left)
                           and any(isinstance(b, _a.Raise) for b in n.body))
         c = _ga(cond.test, {"rank[0]": "(nth 0 rk 0)", "rank[1]": "(nth 1 rk 0)", "n_row": "(hd 0 (shape Xp))", "n_column": "(prod (tl (shape Xp)))"})
-        return [("tr_rank_rotation", f"forall (n_dim mode : nat) (rank : list nat), {rot} = tr_rotate_rank n_dim mode rank", "intros; reflexivity"),
+        # tr_rank_rotation: the goal "literally the model's expression" is informative only (GENERIC[...]); what decides is the evaluation of the
+        # source expression on generic requests (distinct entries, rank[n] = rank[0] as validate_tr_rank guarantees, every order 2-6 and every
+        # start mode >= 1): a slicing / concatenation expression that agrees with the model there is a semantics-preserving rewrite
+        GENERIC["tr_rank_rotation"] = f"forall (n_dim mode : nat) (rank : list nat), {rot} = tr_rotate_rank n_dim mode rank"
+        return [("tr_rank_rotation", "forallb (fun n_dim => forallb (fun mode => if list_eq_dec Nat.eq_dec "
+                 f"((fun (n_dim mode : nat) (rank : list nat) => {rot}) n_dim mode (seq 1 n_dim ++ [1])) (tr_rotate_rank n_dim mode (seq 1 n_dim ++ [1])) "
+                 "then true else false) (seq 1 (n_dim - 1))) (seq 2 5) = true", "vm_compute; reflexivity"),
                 ("tr_mode_order", f"forall (n_dim mode : nat), mode <= n_dim -> {order} = rotate mode (seq 0 n_dim)", "intros; symmetry; now apply rotate_seq"),
                 ("tr_factor_reorder", f"forall (fs : list (tensor Q)) (mode : nat), {reorder} = lastn mode fs ++ firstn (length fs - mode) fs", "intros; reflexivity"),
                 ("tr_first_rank_check_condition", f"forall (Xp : tensor Q) (rk : list nat), {c} = (Nat.min (hd 0 (shape Xp)) (prod (tl (shape Xp))) <? nth 0 rk 0 * nth 1 rk 0)",
@@ -1595,13 +1659,18 @@ def ast_tie(chk):
                 "From TLV Require Import Base.Shape Base.PyList Base.Tensor Base.Ops Model.Base Model.SvdDecomp Model.SvdDecompSymeig Proofs.SvdDecompRing Proofs.SvdDecompValidate.\nOpen Scope nat_scope.\n")
         for name, (stmt, tac) in goals:
             f.write(f"Lemma ast_{name} : {stmt}.\nProof. {tac}. Qed.\n")
+        for name, stmt in GENERIC.items():
+            f.write(f"Goal {stmt}.\nProof. first [ intros; reflexivity | idtac \"AST-GENERIC-ONLY {name}\" ]. Abort.\n")
     failed = []
+    generic_only = []
     try:
         r = subprocess.run(["timeout", "300", "coqc", "-R", os.path.join(C.COQ, "theories"), "TLV", fnm], capture_output=True, text=True, cwd=d)
         if r.returncode == 124:
             skipped.append("coqc timed out on the generated goals (machine load)")
         elif r.returncode != 0:
             failed.append((r.stdout + r.stderr)[-900:])
+        else:
+            generic_only = [name for name in GENERIC if f"AST-GENERIC-ONLY {name}" in (r.stdout + r.stderr)]
     except OSError as e:
         skipped.append(f"coqc not run: {e}")
     syn_state = "not generated"
@@ -1622,6 +1691,7 @@ def ast_tie(chk):
     shutil.rmtree(d, ignore_errors=True)
     chk.cov["ast_symeig_body_vs_model"] = syn_state
     chk.cov["ast_tie"] = {"goals_generated_from_source": [g[0] for g in goals], "not_translatable_counted": skipped,
+                          "no_longer_literally_the_model_expression_but_equal_on_generic_inputs": generic_only,
                           "proved": (not failed) and bool(goals) and not any("timed out" in x for x in skipped)}
     chk.checker_cmds.append("coqc on build/ast/C09_*/C09_ast.v (goals regenerated from the Python ast of _tt.py, _tr_svd.py, tt_tensor.py)")
     for msg in failed:
@@ -1778,6 +1848,7 @@ def run(chk):
     del STRICT_CASES[:]
     FULLREQ.clear()
     TR_LITERAL.clear()
+    RAND_IDENTITY.clear()
     chk.build_proofs()
     # common.print_assumptions also captures the header line "Axioms:" that Coq prints before the list; it is not an axiom
     chk.axioms = {k: [a for a in v if a != "Axioms"] for k, v in (getattr(chk, "axioms", None) or {}).items()}
@@ -1846,6 +1917,8 @@ def run(chk):
         chk.hist("corr_class", info["cls"])
         if info.get("ttm3"):
             chk.hist("corr_ttm_three_mode_pairs", st)
+        if info.get("ttm1"):
+            chk.hist("corr_ttm_single_mode_pair", st)
         if kind == "tt" and st == "ok":
             check_validate_strict(chk, X, rank, v)
         if sign_ambiguous(calls, LAST_KEPT):
@@ -2022,6 +2095,7 @@ def run(chk):
             chk.disagreement("corr:C09 sufficient-rank label (harness tr_rank_for(sufficient=True) vs tr_full_requestb, the premise of C09_tensor_ring_exact_full_request)",
                              {"function": "tr", "shape": list(shape_), "rank": list(rank_), "options": {"mode": mode_}})
     chk.cov["tensor_ring_literal_requested_rank_condition"] = dict(TR_LITERAL)
+    chk.cov["tensor_train_randomized_error_identity"] = dict(RAND_IDENTITY)
     if resid:
         chk.cov["oracle_residuals"] = {"svd_calls_taped": len(resid), "max_relative_residual_U_S_V_minus_M": max(resid),
                                        "max_orthonormality_residual_UtU_VVt_minus_I": max(orth) if orth else 0.0}
